@@ -287,6 +287,19 @@ def parseOp (h : Heap) (s : String) : Option Op :=
       let (rb, g) ← mutKind k
       let j ← i.toNat?
       some (if rb then .rebind j g else .mutate j g)
+  | ["mutobj", d, kind, sIdx] => do
+      -- in-place mutators whose operand is another live object (its store must not end up shared)
+      let j ← d.toNat?; let o2 ← h.objs[(← sIdx.toNat?)]?
+      let other := storeBits h o2.sid
+      match kind with
+      | "append" => some (.mutate j (fun b => b ++ other))
+      | "iadd" => some (.mutate j (fun b => b ++ other))
+      | "prepend" => some (.rebind j (fun b => other ++ b))
+      | "insert0" => some (.mutate j (fun b => other ++ b))
+      | "overwrite0" => some (.mutate j (fun b => other ++ b.drop other.length))
+      | "setslice01" => some (.mutate j (fun b => other ++ b.drop 1))
+      | "ior" => some (.mutate j (fun b => if b.length = other.length then List.zipWith (· || ·) b other else b))
+      | _ => none
   | ["mutext", i, k] => do
       let (_, g) ← mutKind k
       some (.mutateExt (← i.toNat?) g)
